@@ -2,26 +2,37 @@
 //! taken from the run's PRNG (or from a recorded switch list when replaying).
 //!
 //! Runs inside a freshly forked process (see proc.rs); ends the process through `item_finish`.
+//!
+//! Decision points: call boundaries, thread exit, ticks (source ticks and, when the build is
+//! block-instrumented, every basic-block edge of the library crates), and futex waits issued from inside
+//! a library call (a caller thread about to block on a lock another, parked, thread holds: the simulator
+//! parks it instead and picks someone else, so a lock held across scheduling points never stalls a run).
 
 use crate::gen::Pool;
 use crate::oracle::{silence_stderr, STACK_BYTES};
 use crate::proc;
+use crate::tick::{self, TickCtx, T};
+pub use crate::tick::{BLOCKED, BOUNDARY, EXITED, NSITES, SHARED};
 use crate::types::*;
 use serde_json::{json, Value};
-use std::cell::Cell;
 use std::collections::{BTreeMap, BTreeSet};
+use std::sync::atomic::{AtomicPtr, Ordering};
 use std::sync::{Condvar, Mutex};
-use string_calculator::verif_hooks::{set_thread_hook, Site, SITE_COUNT};
+use string_calculator::verif_hooks::set_thread_hook;
 
-pub const BOUNDARY: usize = SITE_COUNT; // pseudo-site: between calls
-pub const EXITED: usize = SITE_COUNT + 1; // pseudo-site: client finished
-pub const NSITES: usize = SITE_COUNT + 2;
 pub const SITE_NAMES: [&str; NSITES] = [
     "ApiEnter", "ApiLexed", "ApiParsed", "TokNext", "TokScan", "SupScan", "ParseNext", "ParseAtom", "ParseClimb",
-    "ParseArgs", "EvalEnter", "EvalLoop", "boundary", "exit",
+    "ParseArgs", "EvalEnter", "EvalLoop", "boundary", "exit", "basic_block", "after_shared_access", "blocked_on_futex",
 ];
 
-pub const CALL_STEP_CAP: u64 = 1_000_000;
+/// per-call cap on ticks inside a simulated run (pool entries need far fewer: see oracle::isolated_tick_cap)
+pub fn call_step_cap() -> u64 {
+    if tick::bb_guards() > 0 {
+        64_000_000
+    } else {
+        1_000_000
+    }
+}
 
 #[derive(Clone, Debug, PartialEq)]
 pub enum Policy {
@@ -33,8 +44,10 @@ pub enum Policy {
     RandomWalk { p: f64 },
     /// random priorities with k priority-change points
     Pct { k: usize },
-    /// always pre-empt at one site kind, otherwise random walk with p
+    /// always pre-empt at one source site kind, otherwise random walk with p
     Targeted { site: usize, p: f64 },
+    /// pre-empt (probability q) right after an access to memory another caller thread touched, otherwise random walk with p
+    RaceDirected { p: f64, q: f64 },
     /// follow `RunSpec::switches`
     Replay,
 }
@@ -47,6 +60,7 @@ impl Policy {
             Policy::RandomWalk { p } => format!("random_walk({})", p),
             Policy::Pct { k } => format!("pct({})", k),
             Policy::Targeted { site, p } => format!("targeted({},{})", SITE_NAMES[*site], p),
+            Policy::RaceDirected { p, q } => format!("race_directed({},{})", p, q),
             Policy::Replay => "replay".into(),
         }
     }
@@ -57,11 +71,9 @@ impl Policy {
             Policy::RandomWalk { .. } => "random_walk",
             Policy::Pct { .. } => "pct",
             Policy::Targeted { .. } => "targeted",
+            Policy::RaceDirected { .. } => "race_directed",
             Policy::Replay => "replay",
         }
-    }
-    pub fn intra_call(&self) -> bool {
-        matches!(self, Policy::RandomWalk { .. } | Policy::Pct { .. } | Policy::Targeted { .. })
     }
 }
 
@@ -91,17 +103,12 @@ pub struct RunSpec {
     pub faults_enabled: Vec<&'static str>,
 }
 
-impl RunSpec {
-    pub fn total_calls(&self) -> usize {
-        self.clients.iter().map(|c| c.len()).sum()
-    }
-}
-
 #[derive(Clone, Copy, PartialEq)]
 enum Kind {
     Boundary,
     Tick(usize),
     Exit,
+    Blocked,
 }
 
 struct St {
@@ -109,6 +116,7 @@ struct St {
     start: u32,
     ready: Vec<bool>,
     done: Vec<bool>,
+    blocked: Vec<Option<usize>>,
     in_call: Vec<Option<u32>>,
     cur_call: Vec<u32>,
     parked_site: Vec<usize>,
@@ -129,7 +137,10 @@ struct St {
     // stats
     calls: u64,
     ticks: u64,
+    block_ticks: u64,
+    shared_hits: u64,
     switches: u64,
+    futex_waits: u64,
     f: [u64; 8],
     preempt_site: [u64; NSITES],
     pairs: [[u64; NSITES]; NSITES],
@@ -152,47 +163,96 @@ struct Shared {
     n: usize,
 }
 
-struct ClientCtx {
-    sh: &'static Shared,
-    me: usize,
-    call_no: Cell<u32>,
-    ticks: Cell<u64>,
-    trace: Cell<u64>,
-}
+static RUN_SHARED: AtomicPtr<Shared> = AtomicPtr::new(std::ptr::null_mut());
 
-thread_local! {
-    static CTX: Cell<*const ClientCtx> = const { Cell::new(std::ptr::null()) };
-}
-
-fn sim_hook(site: Site) {
-    let p = CTX.with(|c| c.get());
+fn shared() -> Option<&'static Shared> {
+    let p = RUN_SHARED.load(Ordering::Acquire);
     if p.is_null() {
-        return;
+        None
+    } else {
+        Some(unsafe { &*p })
     }
-    let ctx = unsafe { &*p };
-    let t = ctx.ticks.get() + 1;
-    ctx.ticks.set(t);
-    let mut h = Hasher64(ctx.trace.get());
-    h.u64(site as u64 + 1);
-    ctx.trace.set(h.0);
-    if t > CALL_STEP_CAP {
-        finish_inconclusive(ctx.sh, "call_step_cap");
-    }
-    ctx.sh.decision(ctx.me, ctx.call_no.get(), t as u32, Kind::Tick(site as usize));
 }
 
-fn finish_inconclusive(sh: &Shared, why: &str) -> ! {
-    let _ = sh;
+/// a tick arrived past the per-call cap (called with in_hook set)
+pub fn cap_exceeded(mode: u8) -> ! {
+    if mode == tick::MODE_ISO {
+        proc::item_finish(b"cap")
+    }
+    finish_inconclusive("call_step_cap")
+}
+
+fn finish_inconclusive(why: &str) -> ! {
     proc::item_finish(json!({"st": "inconclusive", "why": why}).to_string().as_bytes())
 }
 
+/// a tick that is due for a scheduling decision (called with in_hook set)
+pub fn slow_tick(c: &TickCtx, site: usize) {
+    if let Some(sh) = shared() {
+        let site = if c.pending_shared.replace(false) { SHARED } else { site };
+        let wake = sh.decision(c.me.get(), c.call_no.get(), c.ticks.get(), Kind::Tick(site), c);
+        c.wake.set(wake);
+    }
+}
+
+/// `syscall(SYS_futex, ..)` issued by a caller thread from inside a library call. Returns Some(result) when
+/// the simulator handled it (the thread never blocks in the kernel), None to let the real system call run.
+pub fn intercept_futex(addr: usize, op: i32, val: u32) -> Option<i64> {
+    let cmd = op & 0x7f;
+    let is_wait = cmd == libc::FUTEX_WAIT || cmd == libc::FUTEX_WAIT_BITSET;
+    let is_wake = cmd == libc::FUTEX_WAKE || cmd == libc::FUTEX_WAKE_BITSET;
+    if !is_wait && !is_wake {
+        return None;
+    }
+    T.try_with(|c| {
+        if c.mode.get() != tick::MODE_SIM || !c.in_call.get() || c.in_hook.get() {
+            return None;
+        }
+        let sh = shared()?;
+        c.in_hook.set(true);
+        let r = if is_wait {
+            // the kernel's own check first: only sleep if the word still holds the expected value
+            let cur = unsafe { (*(addr as *const std::sync::atomic::AtomicU32)).load(Ordering::SeqCst) };
+            if cur != val {
+                unsafe { *libc::__errno_location() = libc::EAGAIN };
+                -1
+            } else {
+                sh.block_on(c, addr);
+                0
+            }
+        } else {
+            sh.wake(addr, val)
+        };
+        c.in_hook.set(false);
+        Some(r)
+    })
+    .ok()
+    .flatten()
+}
+
+fn geometric(rng: &mut Rng, p: f64) -> u64 {
+    if p <= 0.0 {
+        return u64::MAX / 4;
+    }
+    if p >= 1.0 {
+        return 0;
+    }
+    let u = rng.unit().max(1e-300);
+    let g = (u.ln() / (1.0 - p).ln()).floor();
+    if g > 1e15 {
+        u64::MAX / 4
+    } else {
+        g as u64
+    }
+}
+
 impl St {
-    fn runnable_others(&self, me: usize) -> Vec<usize> {
-        (0..self.done.len()).filter(|i| *i != me && !self.done[*i]).collect()
+    fn eligible(&self, i: usize) -> bool {
+        !self.done[i] && self.blocked[i].is_none()
     }
 
     fn random_other(&mut self, me: usize) -> Option<usize> {
-        let o = self.runnable_others(me);
+        let o: Vec<usize> = (0..self.done.len()).filter(|i| *i != me && self.eligible(*i)).collect();
         if o.is_empty() {
             None
         } else {
@@ -200,72 +260,73 @@ impl St {
         }
     }
 
-    /// Who runs next. `None` only at Exit when nobody is left.
+    /// Who runs next. `None`: nobody else can run (at Exit / Blocked that means the run is over or stuck).
+    /// `must_leave`: the deciding thread cannot continue (it exited or is blocked).
     fn decide(&mut self, spec: &RunSpec, me: usize, pos: (u32, u32), kind: Kind) -> Option<usize> {
-        let exit = kind == Kind::Exit;
+        let must_leave = matches!(kind, Kind::Exit | Kind::Blocked);
+        let stay = if must_leave { None } else { Some(me) };
         match &spec.policy {
-            Policy::Replay => self.decide_replay(spec, me, pos, exit),
+            Policy::Replay => self.decide_replay(spec, me, pos, must_leave),
             Policy::Serial => {
-                if exit {
+                if must_leave {
                     let order = self.order.clone();
-                    order.into_iter().find(|i| !self.done[*i])
+                    order.into_iter().find(|i| *i != me && self.eligible(*i))
                 } else {
                     Some(me)
                 }
             }
             Policy::CallAtomic { q } => match kind {
-                Kind::Exit => self.random_other(me),
+                Kind::Exit | Kind::Blocked => self.random_other(me),
                 Kind::Boundary => {
                     if self.rng.chance(*q) {
-                        Some(self.random_other(me).unwrap_or(me))
+                        self.random_other(me).or(stay)
                     } else {
-                        Some(me)
+                        stay
                     }
                 }
-                Kind::Tick(_) => Some(me),
+                Kind::Tick(_) => stay,
             },
-            Policy::RandomWalk { p } => match kind {
-                Kind::Exit => self.random_other(me),
+            Policy::RandomWalk { .. } | Policy::Targeted { .. } => match kind {
+                Kind::Exit | Kind::Blocked => self.random_other(me),
                 Kind::Boundary => {
-                    if self.rng.chance(0.5) {
-                        Some(self.random_other(me).unwrap_or(me))
+                    if self.rng.chance(0.4) {
+                        self.random_other(me).or(stay)
                     } else {
-                        Some(me)
+                        stay
                     }
                 }
-                Kind::Tick(_) => {
-                    if self.rng.chance(*p) {
-                        Some(self.random_other(me).unwrap_or(me))
-                    } else {
-                        Some(me)
-                    }
-                }
+                // a tick only reaches the scheduler when its countdown expired or it is the targeted site
+                Kind::Tick(_) => self.random_other(me).or(stay),
             },
-            Policy::Targeted { site, p } => match kind {
-                Kind::Exit => self.random_other(me),
+            Policy::RaceDirected { q, .. } => match kind {
+                Kind::Exit | Kind::Blocked => self.random_other(me),
                 Kind::Boundary => {
-                    if self.rng.chance(0.3) {
-                        Some(self.random_other(me).unwrap_or(me))
+                    if self.rng.chance(0.4) {
+                        self.random_other(me).or(stay)
                     } else {
-                        Some(me)
+                        stay
                     }
                 }
                 Kind::Tick(s) => {
-                    if s == *site || self.rng.chance(*p) {
-                        Some(self.random_other(me).unwrap_or(me))
+                    if s != SHARED || self.rng.chance(*q) {
+                        self.random_other(me).or(stay)
                     } else {
-                        Some(me)
+                        stay
                     }
                 }
             },
             Policy::Pct { .. } => {
-                if self.change_points.contains(&self.step) {
+                while let Some(cp) = self.change_points.iter().next().copied() {
+                    if cp > self.step {
+                        break;
+                    }
+                    self.change_points.remove(&cp);
                     self.low_prio -= 1;
                     self.prio[me] = self.low_prio;
                 }
                 let mut best: Option<usize> = None;
                 for i in 0..self.done.len() {
-                    if self.done[i] || (exit && i == me) {
+                    if !self.eligible(i) || (must_leave && i == me) {
                         continue;
                     }
                     if best.map_or(true, |b| self.prio[i] > self.prio[b]) {
@@ -277,7 +338,7 @@ impl St {
         }
     }
 
-    fn decide_replay(&mut self, spec: &RunSpec, me: usize, pos: (u32, u32), exit: bool) -> Option<usize> {
+    fn decide_replay(&mut self, spec: &RunSpec, me: usize, pos: (u32, u32), must_leave: bool) -> Option<usize> {
         let n = self.done.len();
         let mut want: Option<usize> = None;
         loop {
@@ -299,7 +360,7 @@ impl St {
                 if hp == pos {
                     self.sw_i += 1;
                     let to = head.to as usize;
-                    if to < n && !self.done[to] && to != me {
+                    if to < n && to != me && self.eligible(to) {
                         return Some(to);
                     }
                     continue;
@@ -307,29 +368,80 @@ impl St {
                 break; // not yet
             } else {
                 // the list expects another thread to be running here
-                want = Some(ht);
+                if self.eligible(ht) {
+                    want = Some(ht);
+                }
                 break;
             }
         }
         if let Some(w) = want {
             return Some(w);
         }
-        if exit {
-            (0..n).find(|i| !self.done[*i] && *i != me)
+        if must_leave {
+            (0..n).find(|i| *i != me && self.eligible(*i))
         } else {
             Some(me)
+        }
+    }
+
+    /// After a decision that lets `me` continue at tick `t` of call `call_no`: the tick at which `me` must
+    /// enter the scheduler again (u64::MAX: not before the call ends).
+    fn compute_wake(&mut self, spec: &RunSpec, me: usize, call_no: u32, t: u64) -> u64 {
+        match &spec.policy {
+            Policy::Serial | Policy::CallAtomic { .. } => u64::MAX,
+            Policy::RandomWalk { p } | Policy::Targeted { p, .. } | Policy::RaceDirected { p, .. } => {
+                if self.done.len() < 2 {
+                    return u64::MAX;
+                }
+                t.saturating_add(1).saturating_add(geometric(&mut self.rng, *p))
+            }
+            Policy::Pct { .. } => match self.change_points.iter().next() {
+                Some(cp) => t.saturating_add(cp.saturating_sub(self.step).max(1)),
+                None => u64::MAX,
+            },
+            Policy::Replay => {
+                let n = self.done.len();
+                let mut i = self.sw_i;
+                loop {
+                    let head = match spec.switches.get(i) {
+                        Some(h) => *h,
+                        None => return u64::MAX,
+                    };
+                    let ht = head.thread as usize;
+                    if ht >= n || (self.done[ht] && ht != me) {
+                        i += 1;
+                        continue;
+                    }
+                    if ht != me {
+                        // another thread is expected to run: yield at the next decision point (if it can run)
+                        return if self.eligible(ht) { t + 1 } else { u64::MAX };
+                    }
+                    if head.call < call_no || (head.call == call_no && (head.tick as u64) <= t) {
+                        return t + 1; // stale entry: let the scheduler pop it
+                    }
+                    if head.call == call_no {
+                        return head.tick as u64;
+                    }
+                    return u64::MAX;
+                }
+            }
         }
     }
 }
 
 impl Shared {
-    fn decision(&self, me: usize, call_no: u32, tick: u32, kind: Kind) {
+    /// A decision point of thread `me`. Returns, once `me` holds the baton again, its next wake tick.
+    fn decision(&self, me: usize, call_no: u32, tick: u64, kind: Kind, c: &TickCtx) -> u64 {
         let mut st = self.m.lock().unwrap();
-        st.step += 1;
+        // account for the ticks that went by on the fast path since this thread last synchronised
+        let delta = tick.saturating_sub(c.synced.get());
+        c.synced.set(tick);
+        st.step += delta.max(1);
         let site = match kind {
             Kind::Boundary => BOUNDARY,
             Kind::Tick(s) => s,
             Kind::Exit => EXITED,
+            Kind::Blocked => BLOCKED,
         };
         if kind == Kind::Exit {
             st.done[me] = true;
@@ -337,20 +449,23 @@ impl Shared {
         }
         st.parked_site[me] = site;
         st.cur_call[me] = call_no;
-        let next = st.decide(self.spec, me, (call_no, tick), kind);
-        let step = st.step;
-        st.log.u64(step);
-        st.log.u64(((me as u64) << 40) | ((site as u64) << 32) | next.map_or(0xffff, |x| x as u64));
-        st.log.u64(((call_no as u64) << 32) | tick as u64);
+        let tick32 = tick.min(u32::MAX as u64) as u32;
+        let next = st.decide(self.spec, me, (call_no, tick32), kind);
+        // the event log records what happened (switches, call completions), not how often the scheduler was
+        // consulted: a PRNG-driven run and the replay of its switch list consult it at different ticks
         match next {
             Some(nx) if nx != me => {
+                // (the site label is not part of the log: a replay does not track memory and would label a
+                // switch after a shared access as an ordinary block tick)
+                st.log.u64(((me as u64) << 40) | nx as u64);
+                st.log.u64(((call_no as u64) << 32) | tick32 as u64);
                 st.switches += 1;
-                st.rec.push(Sw { thread: me as u32, call: call_no, tick, to: nx as u32 });
+                st.rec.push(Sw { thread: me as u32, call: call_no, tick: tick32, to: nx as u32 });
                 let to_site = st.parked_site[nx];
                 st.pairs[site][to_site] += 1;
                 st.sched.u64(((me as u64) << 48) | ((nx as u64) << 40) | ((site as u64) << 32) | call_no as u64);
-                st.sched.u64(tick as u64);
-                if let Kind::Tick(_) = kind {
+                st.sched.u64(tick);
+                if matches!(kind, Kind::Tick(_) | Kind::Blocked) {
                     st.preempt_site[site] += 1;
                     st.f[5] += 1;
                     let inflight = st.in_call.iter().filter(|c| c.is_some()).count();
@@ -381,24 +496,71 @@ impl Shared {
             }
             Some(_) => {}
             None => {
-                // Exit and nobody left: back to the coordinator
-                st.current = self.n;
-                self.cv[self.n].notify_one();
+                match kind {
+                    Kind::Exit => {
+                        // nobody left to run: back to the coordinator (which also notices stuck threads)
+                        st.current = self.n;
+                        self.cv[self.n].notify_one();
+                    }
+                    Kind::Blocked => {
+                        // every other thread is finished or blocked as well: a deadlock inside the code under test
+                        // (or a wake-up the simulator could not see). No verdict.
+                        drop(st);
+                        finish_inconclusive("deadlock");
+                    }
+                    _ => {}
+                }
             }
         }
+        if kind == Kind::Exit {
+            return u64::MAX;
+        }
+        st.compute_wake(self.spec, me, call_no, tick)
     }
 
-    fn begin_call(&self, me: usize, entry: u32) {
+    /// `me` is about to sleep on the futex word at `addr`: park it in the simulator instead.
+    fn block_on(&self, c: &TickCtx, addr: usize) {
+        let me = c.me.get();
+        {
+            let mut st = self.m.lock().unwrap();
+            st.blocked[me] = Some(addr);
+            st.futex_waits += 1;
+        }
+        let wake = self.decision(me, c.call_no.get(), c.ticks.get(), Kind::Blocked, c);
+        c.wake.set(wake);
+    }
+
+    /// futex wake: make up to `n` threads parked on `addr` runnable again (lowest index first)
+    fn wake(&self, addr: usize, n: u32) -> i64 {
+        let mut st = self.m.lock().unwrap();
+        let mut woken = 0;
+        for i in 0..st.blocked.len() {
+            if woken >= n as i64 {
+                break;
+            }
+            if st.blocked[i] == Some(addr) {
+                st.blocked[i] = None;
+                woken += 1;
+            }
+        }
+        woken
+    }
+
+    fn begin_call(&self, me: usize, call_no: u32, entry: u32) -> u64 {
         let mut st = self.m.lock().unwrap();
         st.in_call[me] = Some(entry);
+        st.compute_wake(self.spec, me, call_no, 0)
     }
 
-    fn complete(&self, me: usize, call_no: u32, entry: u32, out: Outcome, ticks: u64, trace: u64) {
+    fn complete(&self, me: usize, call_no: u32, entry: u32, out: Outcome, ticks: u64, trace: u64, c: &TickCtx) {
         let mut st = self.m.lock().unwrap();
         let e = &self.pool.entries[entry as usize];
         st.in_call[me] = None;
         st.calls += 1;
         st.ticks += ticks;
+        st.step += ticks.saturating_sub(c.synced.get());
+        st.block_ticks += c.block_ticks.replace(0);
+        st.shared_hits += c.shared_hits.replace(0);
         // no allocation on the client thread between two library calls beyond what the call itself needs:
         // the harness must not perturb allocator reuse patterns a change under test might (wrongly) depend on
         let oh = out.hash64();
@@ -472,7 +634,8 @@ impl Shared {
             "st": status,
             "h": format!("{:016x}", st.log.finish()),
             "sh": format!("{:016x}", st.sched.finish()),
-            "calls": st.calls, "ticks": st.ticks, "steps": st.step, "sw": st.switches,
+            "calls": st.calls, "ticks": st.ticks, "bt": st.block_ticks, "shh": st.shared_hits, "fw": st.futex_waits,
+            "steps": st.step, "sw": st.switches,
             "f": st.f[1..8].to_vec(),
             "ps": st.preempt_site.to_vec(),
             "pairs": pairs,
@@ -486,7 +649,7 @@ impl Shared {
         if let Some(x) = violation {
             v["violation"] = x;
         }
-        if violation_or_trace(status, self.spec.want_trace) {
+        if self.spec.want_trace || status == "violation" {
             v["start"] = json!(st.start);
             v["switches"] = Value::Array(st.rec.iter().map(|s| json!([s.thread, s.call, s.tick, s.to])).collect());
         }
@@ -494,52 +657,62 @@ impl Shared {
     }
 }
 
-fn violation_or_trace(status: &str, want: bool) -> bool {
-    want || status == "violation"
-}
-
 fn client_main(sh: &'static Shared, me: usize, start_call: usize) {
-    let ctx = ClientCtx { sh, me, call_no: Cell::new(0), ticks: Cell::new(0), trace: Cell::new(0) };
-    CTX.with(|c| c.set(&ctx as *const ClientCtx));
-    set_thread_hook(Some(sim_hook));
-    {
-        let mut st = sh.m.lock().unwrap();
-        st.ready[me] = true;
-        sh.cv[sh.n].notify_one();
-        while st.current != me {
-            st = sh.cv[me].wait(st).unwrap();
-        }
-    }
-    let calls = &sh.spec.clients[me];
-    let churn = &sh.spec.churn[me];
-    let mut k = start_call;
-    while k < calls.len() {
-        sh.decision(me, k as u32, 0, Kind::Boundary);
-        let entry = calls[k];
-        let e = &sh.pool.entries[entry as usize];
-        ctx.call_no.set(k as u32);
-        ctx.ticks.set(0);
-        ctx.trace.set(Hasher64::new().0);
-        sh.begin_call(me, entry);
-        let out = exec_call(&e.call);
-        sh.complete(me, k as u32, entry, out, ctx.ticks.get(), ctx.trace.get());
-        k += 1;
-        if k < calls.len() && churn.contains(&((k - 1) as u32)) {
-            // retire this OS thread; the coordinator joins it (TLS destructors run) and spawns the successor
-            set_thread_hook(None);
-            CTX.with(|c| c.set(std::ptr::null()));
+    T.with(|c| {
+        c.mode.set(tick::MODE_SIM);
+        c.me.set(me);
+        c.in_call.set(false);
+        c.in_hook.set(false);
+        c.cap.set(call_step_cap());
+        c.wake.set(u64::MAX);
+        c.target_site.set(match &sh.spec.policy {
+            Policy::Targeted { site, .. } => *site,
+            _ => usize::MAX,
+        });
+        c.track_mem.set(matches!(sh.spec.policy, Policy::RaceDirected { .. }));
+        tick::note_stack(c, STACK_BYTES);
+        set_thread_hook(Some(tick::source_hook));
+        {
             let mut st = sh.m.lock().unwrap();
-            st.f[6] += 1;
-            st.churn_req = Some((me, k));
-            st.ready[me] = false;
-            st.current = sh.n;
+            st.ready[me] = true;
             sh.cv[sh.n].notify_one();
-            return;
+            while st.current != me {
+                st = sh.cv[me].wait(st).unwrap();
+            }
         }
-    }
-    set_thread_hook(None);
-    CTX.with(|c| c.set(std::ptr::null()));
-    sh.decision(me, calls.len() as u32, 0, Kind::Exit);
+        let calls = &sh.spec.clients[me];
+        let churn = &sh.spec.churn[me];
+        let mut k = start_call;
+        while k < calls.len() {
+            tick::begin_call(c, k as u32);
+            sh.decision(me, k as u32, 0, Kind::Boundary, c);
+            let entry = calls[k];
+            let e = &sh.pool.entries[entry as usize];
+            let wake = sh.begin_call(me, k as u32, entry);
+            c.wake.set(wake);
+            c.in_call.set(true);
+            let out = exec_call(&e.call);
+            c.in_call.set(false);
+            sh.complete(me, k as u32, entry, out, c.ticks.get(), c.trace.get(), c);
+            k += 1;
+            if k < calls.len() && churn.contains(&((k - 1) as u32)) {
+                // retire this OS thread; the coordinator joins it (TLS destructors run) and spawns the successor
+                set_thread_hook(None);
+                c.mode.set(tick::MODE_OFF);
+                let mut st = sh.m.lock().unwrap();
+                st.f[6] += 1;
+                st.churn_req = Some((me, k));
+                st.ready[me] = false;
+                st.current = sh.n;
+                sh.cv[sh.n].notify_one();
+                return;
+            }
+        }
+        set_thread_hook(None);
+        tick::begin_call(c, calls.len() as u32);
+        sh.decision(me, calls.len() as u32, 0, Kind::Exit, c);
+        c.mode.set(tick::MODE_OFF);
+    });
 }
 
 fn spawn_client(sh: &'static Shared, me: usize, start_call: usize) -> std::thread::JoinHandle<()> {
@@ -578,6 +751,7 @@ pub fn run_child(pool: &Pool, spec: &RunSpec) -> ! {
         start: 0,
         ready: vec![false; n],
         done: vec![false; n],
+        blocked: vec![None; n],
         in_call: vec![None; n],
         cur_call: vec![0; n],
         parked_site: vec![BOUNDARY; n],
@@ -595,7 +769,10 @@ pub fn run_child(pool: &Pool, spec: &RunSpec) -> ! {
         results: Vec::with_capacity(spec.clients.iter().map(|c| c.len()).sum::<usize>() + 1),
         calls: 0,
         ticks: 0,
+        block_ticks: 0,
+        shared_hits: 0,
         switches: 0,
+        futex_waits: 0,
         f: [0; 8],
         preempt_site: [0; NSITES],
         pairs: [[0; NSITES]; NSITES],
@@ -614,12 +791,12 @@ pub fn run_child(pool: &Pool, spec: &RunSpec) -> ! {
         spec,
         n,
     }));
+    RUN_SHARED.store(sh as *const Shared as *mut Shared, Ordering::Release);
     // spawn clients one at a time; each is parked before the next is created
     let mut handles: Vec<Option<std::thread::JoinHandle<()>>> = Vec::new();
     for i in 0..n {
         handles.push(Some(spawn_client(sh, i, 0)));
     }
-    // clients with no calls at all still pass through their Exit decision
     {
         let mut st = sh.m.lock().unwrap();
         let start = match &spec.policy {
@@ -637,8 +814,8 @@ pub fn run_child(pool: &Pool, spec: &RunSpec) -> ! {
         };
         st.log.u64(0x5354_4152_5400 | start as u64);
         st.current = start;
-        sh.cv[start].notify_one();
         st.start = start as u32;
+        sh.cv[start].notify_one();
         loop {
             while st.current != n {
                 st = sh.cv[n].wait(st).unwrap();
@@ -658,10 +835,17 @@ pub fn run_child(pool: &Pool, spec: &RunSpec) -> ! {
             if st.done.iter().all(|d| *d) {
                 break;
             }
-            // nobody holds the baton but clients remain: cannot happen; hand to the lowest one
-            let nx = (0..n).find(|i| !st.done[*i]).unwrap();
-            st.current = nx;
-            sh.cv[nx].notify_one();
+            // the last runnable thread exited while others are still parked on a futex nobody will wake
+            match (0..n).find(|i| st.eligible(*i)) {
+                Some(nx) => {
+                    st.current = nx;
+                    sh.cv[nx].notify_one();
+                }
+                None => {
+                    drop(st);
+                    finish_inconclusive("deadlock");
+                }
+            }
         }
         // history check over the record: identical calls returned identical outcomes
         let mut by_entry: BTreeMap<u32, u64> = BTreeMap::new();
